@@ -10,7 +10,10 @@ TypeConstructs == {"u64", "i64", "usize", "isize", "tuple2", "tuple3_nested", "t
 FlattenConstructs == {"flatten_field", "flatten_vfield", "flatten_field_sas", "flatten_vfield_sas", "flatten_field_merged", "flatten_field_second"}
 ItemConstructs == FlattenConstructs \cup {"multi_tuple_struct", "multi_tuple_variant", "untagged_data_enum",
                    "tag_without_content", "content_without_tag", "tag_on_unit_enum", "content_on_unit_enum",
-                   "const_string", "const_float", "const_expr", "const_bool", "const_path"}
+                   "const_string", "const_float", "const_expr", "const_bool", "const_path",
+                   \* further initialisers that are not integer literals: a cast (which may change the value), bitwise not, a method
+                   \* call, a block, an if expression
+                   "const_cast", "const_not", "const_method", "const_block", "const_if"}
 \* a negated (or parenthesized) integer literal is still an integer literal: it must be generated with its value
 Supported == {"const_neg", "const_paren"}
 \* an adjacently tagged enum whose only data-carrying variant may be skipped: with the skip marker what is left is a unit enum
